@@ -257,6 +257,7 @@ type gcLabel struct{}
 type gcLabel2 struct{}
 
 func gcRetain() {
+	gcRelease()
 	gcRetainShape("", false)
 	// tables whose first / last column is a zero-sized (label) component
 	gcRetainShape("label-first/", true)
@@ -547,6 +548,64 @@ func gcEscape() {
 		checkPayload((*gcHolder)(w.Get(e3, hID)).P, tok+2, "escape/NewEntityWith with a local literal")
 	}
 	fmt.Println("escape ok")
+}
+
+
+// ---- release of values handed over through the Set family ----
+//
+// A pointer stored in a component through World.Set / Assign / NewEntityWith / a builder with values must become
+// collectable once the component, the entity or the whole population is removed — also when that call was the most
+// recent one of its kind in the process (nothing in the library may keep the last value it was handed).
+
+//go:noinline
+func releaseOnce(kind int, removal int, tok uint64) {
+	w := ecs.NewWorld()
+	hID := ecs.ComponentID[gcHolder](&w)
+	p1 := ecs.ComponentID[gcPlain1](&w)
+	var e ecs.Entity
+	h := gcHolder{P: trackedPayload(tok)}
+	switch kind {
+	case 0:
+		e = w.NewEntity(hID, p1)
+		w.Set(e, hID, unsafe.Pointer(&h))
+	case 1:
+		e = w.NewEntity(p1)
+		w.Assign(e, ecs.Component{ID: hID, Comp: &h})
+	case 2:
+		e = w.NewEntityWith(ecs.Component{ID: hID, Comp: &h}, ecs.Component{ID: p1, Comp: &gcPlain1{}})
+	default:
+		e = ecs.NewBuilderWith(&w, ecs.Component{ID: hID, Comp: &h}).New()
+	}
+	checkPayload((*gcHolder)(w.Get(e, hID)).P, tok, "release/stored value")
+	switch removal {
+	case 0:
+		w.RemoveEntity(e)
+	case 1:
+		w.Remove(e, hID)
+	case 2:
+		w.Batch().RemoveEntities(ecs.All(hID))
+	default:
+		w.Reset()
+	}
+}
+
+func gcRelease() {
+	kinds := []string{"World.Set", "World.Assign", "World.NewEntityWith", "Builder with values"}
+	removals := []string{"RemoveEntity", "Remove(component)", "Batch.RemoveEntities", "Reset"}
+	tok := uint64(900000)
+	for k := range kinds {
+		for r := range removals {
+			before := finalized
+			tok++
+			releaseOnce(k, r, tok)
+			clobberStack(300)
+			settle()
+			if finalized != before+1 {
+				gcFail("release: the value handed to %s is still referenced after %s (it was the most recent value handed to the world; %d of 1 payloads collected)",
+					kinds[k], removals[r], finalized-before)
+			}
+		}
+	}
 }
 
 // ---- value sources that alias the world's own storage, at capacity boundaries ----
